@@ -11,6 +11,7 @@ import RNacos.Driver.ApplyDrv
 import RNacos.Driver.PrivDrv
 import RNacos.Driver.CrashDrv
 import RNacos.Driver.AckDrv
+import RNacos.Driver.ClusterDrv
 open RNacos.Driver
 
 /-- Generic loop: `# …` lines are echoed and reset the state. -/
@@ -47,6 +48,8 @@ def main (args : List String) : IO UInt32 := do
   | ["config", "--spec"] => loop stdin stdout ({} : ConfigDrv.SpecSt) ConfigDrv.specStep {}; return 0
   | ["naming"] => loop stdin stdout ({} : RNacos.Naming.Naming) NamingDrv.step {}; return 0
   | ["naming", "--spec"] => loop stdin stdout ({} : NamingDrv.SpecSt) NamingDrv.specStep {}; return 0
+  | ["cluster"] => loop stdin stdout () ClusterDrv.step (); return 0
+  | ["cluster", "--spec"] => loop stdin stdout ({} : ClusterDrv.SpecSt) ClusterDrv.specStep {}; return 0
   | ["ack"] => loop stdin stdout ({} : AckDrv.St) AckDrv.step {}; return 0
   | ["ack", "--spec"] => loop stdin stdout ({} : AckDrv.SpecSt) AckDrv.specStep {}; return 0
   | ["crash"] => loop stdin stdout () CrashDrv.step (); return 0
